@@ -206,4 +206,45 @@ def run(case):
                 subs.append(result(VIOL, kind="value", msg="Chol.inverse().to_dense() differs from A^-1", feat=dict(f, entry="inverse().to_dense"), keys=[keyp + "|invd"]))
             else:
                 subs.append(result(OK, feat=dict(f, entry="inverse().to_dense"), keys=[keyp + "|invd"]))
+    # solves through the factor objects the library itself hands out: CholLinearOperator(A.cholesky(upper), upper), the factor's own
+    # triangular solve, and the operator returned by root_decomposition()
+    if case["kind"] == "pd" and not case["cfg"] and dt == torch.float64:
+        from linear_operator.operators import CholLinearOperator
+
+        Bm = _t((n, 2), "Bfac", dt)
+        Lm = _t((2, n), "Lfac", dt)
+        Ainv = torch.linalg.inv(A64)
+        tolf = 500 * n * eps * cond * max(1.0, (Ainv @ Bm).abs().amax().item())
+
+        def derived(label, build_fn, ref_fn, extra):
+            f = dict(base, rhs="mat", entry=label, left=False, **extra)
+            env.settings_restore()
+            with warnings.catch_warnings():
+                warnings.simplefilter("ignore")
+                got = call(lambda: build_fn(R.fresh(case["term"], dtype=dt, batch=batch, seed=env.SEED)[0].op))
+            k = f"{keyp}|{label}|{sorted(extra.items())}"
+            if isinstance(got, Raised):
+                if is_explicit_unsupported(got, r".*"):
+                    subs.append(result(UNSUP, exc=got.type, msg=got.msg, feat=f, keys=[k]))
+                else:
+                    subs.append(result(VIOL, kind="internal-error", exc=got.type, msg=f"{label}: {got.msg} @ {got.where()}", feat=f, keys=[k]))
+                return
+            ref = ref_fn()
+            if tuple(got.shape) != tuple(ref.shape):
+                subs.append(result(VIOL, kind="shape", msg=f"{label}: shape {tuple(got.shape)} vs {tuple(ref.shape)}", feat=f, keys=[k]))
+                return
+            err = (got.double() - ref).abs().amax().item()
+            subs.append(result(VIOL, kind="value", msg=f"{label} differs from the dense reference by {err:.3g} (tol {tolf:.3g})", feat=f, keys=[k], ratio=err / tolf)
+                        if not err <= tolf else result(OK, feat=f, keys=[k], ratio=err / tolf))
+
+        for up in (False, True):
+            Ld = torch.linalg.cholesky(A64)
+            Fd = Ld.mT if up else Ld
+            derived("Chol(A.cholesky(upper), upper).solve", lambda o, up=up: CholLinearOperator(o.cholesky(upper=up), upper=up).solve(Bm), lambda: Ainv @ Bm, {"upper": up})
+            derived("Chol(A.cholesky(upper), upper).solve[left]", lambda o, up=up: CholLinearOperator(o.cholesky(upper=up), upper=up).solve(Bm, Lm), lambda: Lm @ Ainv @ Bm, {"upper": up})
+            derived("A.cholesky(upper).solve", lambda o, up=up: o.cholesky(upper=up).solve(Bm), lambda Fd=Fd: torch.linalg.inv(Fd) @ Bm, {"upper": up})
+            derived("A.cholesky(upper).solve[left]", lambda o, up=up: o.cholesky(upper=up).solve(Bm, Lm), lambda Fd=Fd: Lm @ torch.linalg.inv(Fd) @ Bm, {"upper": up})
+            derived("Chol(A.cholesky(upper), upper).inv_quad", lambda o, up=up: CholLinearOperator(o.cholesky(upper=up), upper=up).inv_quad(Bm), lambda: (Bm * (Ainv @ Bm)).sum((-2, -1)), {"upper": up})
+        derived("A.root_decomposition().solve", lambda o: o.root_decomposition().solve(Bm), lambda: Ainv @ Bm, {})
+        derived("A.add_jitter(0).solve", lambda o: o.add_jitter(0.0).solve(Bm), lambda: Ainv @ Bm, {})
     return result(sub=subs, trans=len(subs) + 1)
